@@ -519,9 +519,9 @@ func (runInfo *runInfoStruct) makeCallArgs(rt reflect.Type, isRunVMFunction bool
 		indexSlice := 0
 		for indexInReal < numInReal {
 			if isRunVMFunction {
-				args = append(args, reflect.ValueOf(sliceRV.Index(indexSlice)))
+				args = append(args, reflect.ValueOf(copyOfElement(sliceRV.Index(indexSlice))))
 			} else {
-				runInfo.rv, runInfo.err = convertReflectValueToType(sliceRV.Index(indexSlice), rt.In(indexInReal))
+				runInfo.rv, runInfo.err = convertReflectValueToType(copyOfElement(sliceRV.Index(indexSlice)), rt.In(indexInReal))
 				if runInfo.err != nil {
 					runInfo.err = newStringError(callExpr.SubExprs[indexExpr],
 						"function wants argument type "+rt.In(indexInReal).String()+" but received type "+runInfo.rv.Type().String())
